@@ -84,6 +84,8 @@ def run_program(ctx, spec, prog):
     timeout_ms = 60000 if ctx.tier == "quick" else 300000
     g = [os.path.join(VERIF, "bin/gosym"), "-dir", d, "-pkg", "./" + info["pkg"], "-run", spec["harness"], "-labels", spec["labels"],
          "-out", res_path, "-workers", str(spec.get("workers", 4)), "-timeout", str(timeout_ms), "-unwind", "64"] + spec.get("gosym", [])
+    if info.get("summarize"):
+        g += ["-summarize", info["summarize"]]
     if ctx.tier == "thorough" and spec.get("solver2", True):
         g += ["-solver2", "z3" if "z3-new" in spec.get("gosym", []) else "z3-new"]
     p = sh(g, check=False, timeout=3600)
